@@ -459,8 +459,10 @@ func (c *Collection) AddDocument(id uint64, vector []float64, metadata []byte) {
 		log.Panicf("Failed to write record: %v", err)
 	}
 
-	// Add the document's vector to the LSH table
-	c.lshTree.addPoint(id, vector)
+	// Add the document's vector to the LSH table. The index must route by the
+	// vector as stored (after quantization): removal and splits look the
+	// document up again and route by what getDocument returns.
+	c.lshTree.addPoint(id, decodeVector(encodedVector, c.DimensionCount, c.Quantization))
 }
 
 /*
